@@ -164,6 +164,17 @@ def run(tier, seed):
         cnt = cnt if tier == "quick" else cnt * 8
         for _ in range(cnt):
             cases.append(match_case([[rng.choice(LEVELS) for _ in range(nd)] for _ in range(ns)]))
+    # (a') calls of match_candidates_sample recorded while the repository's own tests run (tracing pytest plugin)
+    from harness import shim
+    from harness.repo_tests import record
+    recs, rc, tail = record(["tests/inference/test_paf_grouping.py"], shim.REPO)
+    n_repo = 0
+    for rec in recs:
+        if rec["fn"] == "match_candidates_sample":
+            for cc in rec["cases"]:
+                cases.append(dict(kind="match", cand=cc["cand"], matches=cc["matches"], raised=rec["raised"], mat="(recorded from tests/inference/test_paf_grouping.py)"))
+                n_repo += 1
+    res.coverage["calls_recorded_from_repo_tests"] = n_repo
     n_match = len(cases)
     # (b) predict scenes
     n_scenes = 1500 if tier == "quick" else 20000
